@@ -344,6 +344,9 @@ def run_shard(spec):
                 res["evaluations"] += 1
                 res["nontrivial_distinct"] += 1
                 if t > 2.0:
+                    # CPU time, but confirm: the minimum of three measurements must exceed the threshold
+                    t = min(t, lex_time(text), lex_time(text))
+                if t > 2.0:
                     res["violations"].append({"kind": "short-input-takes-seconds-in-the-lexer", "sig": name,
                                               "case": {"lex_family": name, "n": n},
                                               "detail": {"chars": len(text), "cpu_seconds": round(t, 2), "series_n_chars_ms": row}})
@@ -380,7 +383,7 @@ def on_shard_failure(spec, note):
     after = resource.getrusage(resource.RUSAGE_CHILDREN)
     cpu = (after.ru_utime + after.ru_stime) - (before.ru_utime + before.ru_stime)
     res = {"evaluations": 1, "nontrivial_distinct": 1, "violations": [], "samples": [], "counters": {"measurements": 1}, "inconclusive": []}
-    if timed_out or cpu > 10.0:
+    if cpu > 10.0:  # decided on the child's CPU time only; a wall-clock timeout alone is inconclusive
         size = m.get("n") or m.get("k")
         res["violations"].append({"kind": "short-input-takes-seconds" + ("-in-the-lexer" if "lex_family" in m else ""),
                                   "sig": str(m.get("lex_family") or m.get("family")), "case": m,
